@@ -25,9 +25,12 @@ Proof.
     + start Hs. solve_inv HI.
     + destruct (it_resp (itm s j)) as [d|] eqn:Hresp.
       * start Hs. solve_inv HI.
-      * exfalso. pose proof (c_pubd _ _ HI j Hj Hresp Herr Hab) as U.
-        pose proof (c_lead_open _ _ HI j Hj) as O.
-        destruct (a_pc (act s j)); cbn in *; try discriminate; specialize (O eq_refl); congruence.
+      * (* nothing published: the leader's load panicked, the deferred Finish released the item *)
+        assert (Hcr : a_out (act s j) = Some (OCrash None)).
+        { apply (c_pubd _ _ HI j Hj Hresp Herr Hab).
+          pose proof (c_lead_open _ _ HI j Hj) as O.
+          destruct (a_pc (act s j)); cbn in *; try reflexivity; specialize (O eq_refl); congruence. }
+        start Hs. solve_inv HI.
 Qed.
 
 Lemma inv_wake_ctx s i s' :
@@ -64,8 +67,17 @@ Proof.
     + solve_inv HI.
 Qed.
 
+Lemma inv_crashed s i :
+  Inv s -> exists_b i = true -> a_pc (act s i) = PLoad -> Inv (crashed fixed s i APanic).
+Proof.
+  intros HI He Hpc. unfold crashed. cbn [sub_defer fixed].
+  destruct (a_ref (act s i)) as [j|] eqn:Hr.
+  - own HI j i. solve_inv HI.
+  - solve_inv HI.
+Qed.
+
 Lemma inv_ans s i w s' :
-  Inv s -> exists_b i = true -> ans reqs s i w = Some s' -> Inv s'.
+  Inv s -> exists_b i = true -> ans fixed reqs s i w = Some s' -> Inv s'.
 Proof.
   intros HI He Hs. unfold ans in Hs.
   destruct (a_pc (act s i)) eqn:Hpc; try discriminate.
@@ -73,6 +85,7 @@ Proof.
   - start Hs. apply inv_loaded_ok; auto.
   - start Hs. apply inv_loaded_err; auto.
   - destruct (a_cancel (act s i)) eqn:Hc; [|discriminate]. start Hs. apply inv_loaded_err; auto.
+  - start Hs. apply inv_crashed; auto.
 Qed.
 
 Lemma inv_cancel s i :
